@@ -1043,8 +1043,8 @@ def judge_cast(s, t, x, r):
         if not (ovf or tr) and (not ok or val != x or ubv):
             out.append(("cast-unsound", "floating value not flagged by will_static_cast_overflow/truncate but not exactly castable",
                         {"x_is_hi_plus_1": (not isinstance(x, str)) and x == th + 1}))
-        if ok and (ovf or tr):
-            out.append(("cast-false-alarm", "exactly castable integer-valued input flagged", {}))
+        # (a flagged but exactly castable value is a false alarm; the property does not forbid it for floating sources —
+        #  it shows up as a model/implementation difference)
     else:
         if not (ovf or tr) and not isinstance(x, str):
             if isinstance(val, str) or val != rne(t, x) or ubv:
